@@ -174,6 +174,13 @@ def run(tier):
     rr = __import__("astgen").rng(2)
     sample = progs if tier == "thorough" and len(progs) < 8000 else rr.sample(progs, min(len(progs), 150 if tier == "quick" else 8000))
     run.add_cases("c02_enum", mcexec.cases(sample, t, "c02e"))
+    wprogs, wstats, wt = mcexec.run(tier, "c02_mcexec_wide", wide=True)
+    wsample = wprogs if tier == "thorough" and len(wprogs) < 8000 else rr.sample(wprogs, min(len(wprogs), 150 if tier == "quick" else 8000))
+    run.add_cases("c02_enum_wide", mcexec.cases(wsample, wt, "c02w"))
+    progs = progs + wprogs
+    sample = list(sample) + list(wsample)
+    mstats["distinct"] += wstats["distinct"]
+    mstats["states"] += wstats["states"]
     run.states += mstats["distinct"]
     run.trans += mstats["states"]
     # each mode against its own machine: only crashes are reported here (the rest is C01's business)
